@@ -13,6 +13,7 @@ import (
 	"io"
 	"net/http"
 	"reflect"
+	"sort"
 	"strings"
 	"syscall"
 	"time"
@@ -132,7 +133,6 @@ func (o *obsImpl) OnPersistComplete(ctx context.Context, d time.Duration, err er
 		o.failed++
 	}
 }
-
 
 func (t tcase) String() string {
 	var p []string
@@ -288,7 +288,20 @@ func runCaseBody(t tcase) (out []string) {
 		if followUp {
 			wantGot = []int{1000 + id, id}
 		}
-		if fmt.Sprint(got[gotBefore:]) != fmt.Sprint(wantGot) || fmt.Sprint(got2[gotBefore:]) != fmt.Sprint(wantGot) {
+		// (whether the error handler - and with it the follow-up event it publishes - runs
+		// before or after the handlers of the failing publish is not something the statement
+		// fixes: both orders are accepted; an earlier version of this check insisted on the
+		// order the pinned code has, which a correct restructuring need not keep)
+		sameSet := func(a, w []int) bool {
+			if len(a) != len(w) {
+				return false
+			}
+			x, y := append([]int{}, a...), append([]int{}, w...)
+			sort.Ints(x)
+			sort.Ints(y)
+			return fmt.Sprint(x) == fmt.Sprint(y)
+		}
+		if !sameSet(got[gotBefore:], wantGot) || !sameSet(got2[gotBefore:], wantGot) {
 			bad("publish %d (%s): events delivered to the handlers %v / %v, want %v to both", i, names[b], got[gotBefore:], got2[gotBefore:], wantGot)
 		}
 		// append attempts
@@ -556,6 +569,9 @@ func durableCases() []dcase {
 
 func run(c *h.Check) {
 	runRealStores(c)
+	for _, sc := range concScenarios() {
+		c.Explore(sc, 2, 200000, false)
+	}
 	for i, d := range durableCases() {
 		if !c.Mine(i) {
 			continue
@@ -619,6 +635,11 @@ func stripDigits(s string) string {
 }
 
 func replay(c *h.Check, rf *h.ReplayFile) []vrt.Violation {
+	for _, sc := range concScenarios() {
+		if sc.Name == rf.Scenario {
+			return h.ReplaySchedule(sc, rf)
+		}
+	}
 	var probe struct {
 		Durable *dcase    `json:"durable"`
 		Real    *realCase `json:"real"`
